@@ -833,6 +833,7 @@ pub fn drive(tier: &str) -> i32 {
             .map(|(_, s)| vcore::slots::program(&s))
             .collect(),
     ));
+    groups.extend(super::genpool::generated_groups(quick));
     let mut seen: HashSet<u64> = HashSet::new();
     let mut reports = vec![];
     let mut samples = vec![];
